@@ -1,0 +1,33 @@
+//go:build verif
+
+package kgo
+
+// Verification contracts (comments only), read by /verif/govc. Compiled only with -tags verif; no code.
+
+// ---- C29, call sites: how the producer uses the wrapping increment ----
+// recBuf.seq is the sequence of the next batch to drain, recBuf.batch0Seq the sequence of the oldest unfinished
+// batch. A drained batch is stamped with the current seq (tryAddBatch hands recBuf.seq to the request) and seq then
+// advances by the batch's record count; finishing the oldest batch advances batch0Seq by its record count;
+// rewinding sets seq back to batch0Seq and the drain index to 0. All three go through incrementSequence, never
+// through plain addition.
+//@ func (s *sink) createReq(id int64, epoch int16) (req *produceRequest, txn *kmsg.AddPartitionsToTxnRequest, more bool)
+//@   prop C29
+//@   site call tryAddBatch#0 assert [the-batch-at-the-drain-index] arg2 == recBuf && arg3 == batch
+//@   site call incrementSequence#0 assume recBuf.seq >= 0 && len(batch.records) < 2147483648  // field invariant (audit below); a batch holds fewer than 2^31 records
+//@   site call incrementSequence#0 assert [next-sequence-advances-by-the-record-count] arg0 == recBuf.seq && arg1 == int32(len(batch.records))
+//@   site store seq#0 assert [stored-as-the-next-sequence] val == $incrementSequence0 && val >= 0
+//@ func (cl *Client) finishBatch(batch *recBatch, producerID int64, producerEpoch int16, baseOffset int64, err error)
+//@   prop C29
+//@   site call incrementSequence#0 assume recBuf.batch0Seq >= 0 && len(batch.records) < 2147483648  // field invariant (audit below); a batch holds fewer than 2^31 records
+//@   site call incrementSequence#0 assert [oldest-sequence-advances-by-the-finished-count] arg0 == recBuf.batch0Seq && arg1 == int32(len(batch.records))
+//@   site store batch0Seq#0 assert [stored-as-the-oldest-sequence] val == $incrementSequence0 && val >= 0
+//@ func (recBuf *recBuf) resetBatchDrainIdx()
+//@   prop C29
+//@   site store seq#0 assert [rewind-to-the-oldest-unfinished-batch] val == recBuf.batch0Seq
+//@   site store batchDrainIdx#0 assert [drain-from-the-first-batch-again] val == 0
+
+// Both sequence fields are never negative: every store to them anywhere in the package is in one of the functions
+// below (package-wide scan), and each of those stores 0, the other (non-negative) field, or a result of
+// incrementSequence (non-negative by its contract). The call sites above may therefore assume it.
+//@ audit initonly recBuf.seq, recBuf.batch0Seq except (*sink).createReq; (*Client).finishBatch; (*recBuf).resetBatchDrainIdx; (*produceRequest).tryAddBatch
+//@   prop C29
